@@ -244,7 +244,66 @@ def gen_invalid_chars():
     return "\n".join(lines) + "\n"
 
 
+def pin_functions(fname, sigs):
+    """[(key, normalised body text)] for functions of src/<fname> found by signature regex."""
+    text = strip_comments(src(fname))
+    out = []
+    for key, sig in sigs:
+        body = function_body(text, sig)
+        out.append((key, norm_ws(body)))
+    return out
+
+
+def gen_pairs(namespace_doc, defname, pairs, source):
+    lines = ["/- GENERATED by tools/extract.py from %s - do not edit. -/" % source,
+             "namespace Ledger.Gen", "", "/-- %s -/" % namespace_doc,
+             "def %s : List (String × String) := [" % defname,
+             ",\n".join("  (%s, %s)" % (lean_str(k), lean_str(v)) for k, v in pairs), "]", "", "end Ledger.Gen"]
+    return "\n".join(lines) + "\n"
+
+
+AMOUNT_FNS = [
+    ("amount.cc:compare", r"int\s+amount_t::compare\(const amount_t& amt\) const\s*\{"),
+    ("amount.cc:operator==", r"bool\s+amount_t::operator==\(const amount_t& amt\) const\s*\{"),
+    ("amount.cc:operator+=", r"amount_t&\s+amount_t::operator\+=\(const amount_t& amt\)\s*\{"),
+    ("amount.cc:operator-=", r"amount_t&\s+amount_t::operator-=\(const amount_t& amt\)\s*\{"),
+    ("amount.cc:multiply", r"amount_t&\s+amount_t::multiply\(const amount_t& amt, bool ignore_commodity\)\s*\{"),
+    ("amount.cc:operator/=", r"amount_t&\s+amount_t::operator/=\(const amount_t& amt\)\s*\{"),
+    ("amount.cc:in_place_negate", r"void\s+amount_t::in_place_negate\(\)\s*\{"),
+    ("amount.cc:in_place_roundto", r"void\s+amount_t::in_place_roundto\(int places\)\s*\{"),
+    ("amount.cc:sign", r"int\s+amount_t::sign\(\) const\s*\{"),
+    ("amount.cc:is_zero", r"bool\s+amount_t::is_zero\(\) const\s*\{"),
+]
+BALANCE_FNS = [
+    ("balance.cc:operator+=(balance)", r"balance_t&\s+balance_t::operator\+=\(const balance_t& bal\)\s*\{"),
+    ("balance.cc:operator+=(amount)", r"balance_t&\s+balance_t::operator\+=\(const amount_t& amt\)\s*\{"),
+    ("balance.cc:operator-=(balance)", r"balance_t&\s+balance_t::operator-=\(const balance_t& bal\)\s*\{"),
+    ("balance.cc:operator-=(amount)", r"balance_t&\s+balance_t::operator-=\(const amount_t& amt\)\s*\{"),
+    ("balance.cc:operator*=(amount)", r"balance_t&\s+balance_t::operator\*=\(const amount_t& amt\)\s*\{"),
+    ("balance.cc:operator/=(amount)", r"balance_t&\s+balance_t::operator/=\(const amount_t& amt\)\s*\{"),
+]
+VALUE_FNS = [
+    ("value.cc:in_place_simplify", r"void\s+value_t::in_place_simplify\(\)\s*\{"),
+    ("value.cc:in_place_negate", r"void\s+value_t::in_place_negate\(\)\s*\{"),
+    ("value.cc:abs", r"value_t\s+value_t::abs\(\) const\s*\{"),
+    ("value.cc:to_amount", r"amount_t\s+value_t::to_amount\(\) const\s*\{"),
+]
+
+
+def gen_amount_fns():
+    pairs = pin_functions("amount.cc", AMOUNT_FNS) + pin_functions("balance.cc", BALANCE_FNS) + \
+        pin_functions("value.cc", VALUE_FNS)
+    bh = strip_comments(src("balance.h"))
+    for key, sig in [("balance.h:operator==(balance)", r"bool\s+operator==\(const balance_t& bal\) const\s*\{"),
+                     ("balance.h:operator==(amount)", r"bool\s+operator==\(const amount_t& amt\) const\s*\{"),
+                     ("balance.h:balance_t(amount)", r"balance_t\(const amount_t& amt\)\s*\{")]:
+        pairs.append((key, norm_ws(function_body(bh, sig))))
+    return gen_pairs("Normalised bodies of the amount_t / balance_t / value_t routines that Model/Value.lean mirrors.",
+                     "amountFns", pairs, "src/amount.cc, src/balance.cc, src/balance.h, src/value.cc")
+
+
 EXTRACTORS = {
+    "AmountFns": gen_amount_fns,
     "Consts": gen_consts,
     "ValueCells": gen_value_cells,
     "InvalidChars": gen_invalid_chars,
